@@ -335,3 +335,59 @@ Proof.
   split; [exact (proj1 tsa_needs_trimmed_lines)|]. split; [exact (proj1 tsa_needs_no_line_terminator)|].
   split; [exact (proj1 tsa_needs_no_comma_in_id) | exact (proj1 tsa_needs_title_one_line)].
 Qed.
+(* STYLED conversions between SSA/ASS and WebVTT (the library's conversion is NOT the one through the plain view for these
+   two pairs: the speaker name travels).  Model/ConvSsaVtt.v and Model/ConvVttSsa.v transcribe, from the source reader
+   and the destination writer, what reaches the writer; convert_ssa_vtt / convert_vtt_ssa are byte-compared with the library on
+   every generated styled source and on hand-rendered sources with hard texts (suites convssavtt, convvttssa).
+   SSA/ASS -> WebVTT: one numbered cue per Dialogue event, every line prefixed by a voice tag carrying the Name column, the run
+   texts (escaped) one after the other; override blocks, styles, script info, layer, margins, effect are not written.
+   WebVTT -> SSA/ASS: one Dialogue row per cue, Name = the last speaker named in the cue, Text = the run texts of each line put
+   together, lines joined by backslash-n; a STYLE block becomes a one-row styles section; tags, classes, inline timestamps,
+   settings, regions, comments, the timestamp map are not written.
+   Statements: for EVERY representable source document (doc_repr / repr_vdoc: the hypotheses of C04_write_read and
+   C02_write_read) whose conversion - with the runs of each line put together, which is the document the destination bytes
+   denote: conv_ssa_vtt_m, conv_vtt_ssa_m - is representable in the destination, the written source converts without error
+   and the destination reads back, through the plain view, as the source's cues: same number, same order, times truncated to
+   the source's and then the destination's unit, per line exactly the same text (no white-space normalisation).
+   ssavtt_join_ok: no run text ends with the byte 0xC2 (true of every valid UTF-8 text; the WebVTT writer escapes run by run).
+   What the hypothesis on the conversion excludes, each with a computed counter-example (Proofs/ConvSsaVttProofs.v
+   ssa_to_vtt_needs_..., Proofs/ConvVttSsaProofs.v vtt_to_ssa_needs_...; replayed on the library, notes/C07-ssa-vtt.md):
+   towards WebVTT - empty lines, white space at the ends of a line, lines that WebVTT reads as another kind of line (NOTE,
+   STYLE, Region:, X-TIMESTAMP-MAP prefixes, the arrow), speaker names with '>' '&' or blanks at their ends; towards SSA -
+   braces, the sequences backslash-n / backslash-N, white space at the ends of a line, cues without lines, speaker names
+   with a comma (vtt_to_ssa_comma_in_voice_unreadable: the written file is rejected by the SSA reader). *)
+From Astisub Require Import Model.Ssa Model.ConvSsaVtt Model.ConvVttSsa Proofs.SsaDoc Proofs.ConvSsaVttProofs Proofs.ConvVttSsaProofs.
+Theorem C07_ssa_to_vtt_styled : forall d : adoc,
+  doc_repr d -> ssavtt_join_ok d = true -> repr_vdoc (conv_ssa_vtt_m (canon_doc d)) (style_keys d) [] ->
+  exists ssa vtt d', write_ssa d (style_keys d) = Ok ssa /\ convert_ssa_vtt ssa = Ok vtt /\ read_vtt vtt = Ok d' /\
+                     vtt_to_plain d' = ptrunc 1000000 (ptrunc ssa_unit (ssa_to_plain d)).
+Proof. exact ssa_to_vtt_styled. Qed.
+Print Assumptions C07_ssa_to_vtt_styled.
+(* the conversion's bytes are those of the merged form (this is what ties conv_ssa_vtt_m to the library's conversion) *)
+Theorem C07_ssa_to_vtt_merged_bytes : forall d so ro, ssavtt_join_ok d = true ->
+  write_vtt (conv_ssa_vtt d) so ro = write_vtt (conv_ssa_vtt_m d) so ro.
+Proof. exact write_conv_ssa_vtt_m. Qed.
+Print Assumptions C07_ssa_to_vtt_merged_bytes.
+Theorem C07_vtt_to_ssa_styled : forall d so ro,
+  repr_vdoc d so ro -> doc_repr (conv_vtt_ssa_m (ndoc d so ro)) ->
+  exists vtt ssa d', write_vtt d so ro = Ok vtt /\ convert_vtt_ssa vtt = Ok ssa /\ read_ssa ssa = Ok d' /\
+                     ssa_to_plain d' = ptrunc ssa_unit (ptrunc 1000000 (vtt_to_plain d)).
+Proof. exact vtt_to_ssa_styled. Qed.
+Print Assumptions C07_vtt_to_ssa_styled.
+Theorem C07_vtt_to_ssa_merged_bytes : forall d order,
+  write_ssa (conv_vtt_ssa d) order = write_ssa (conv_vtt_ssa_m d) order.
+Proof. exact write_conv_vtt_ssa_m. Qed.
+Print Assumptions C07_vtt_to_ssa_merged_bytes.
+(* non-vacuity: a v4.00+ script with a style, script info, two speakers, override blocks in the middle and at both ends of a
+   line, '&' and '<' in the text, times off the grid; a WebVTT file with timestamp map, STYLE block, region, comment, settings,
+   two speakers in one cue, a tag, a class, an inline timestamp, a comma in the text; ex_sv_expected / ex_vs_expected (Proofs/Conv...Proofs.v)
+   spell out the plain views that come back: 1.23 s - 2.5 s with the lines  Hello brave new world & <co>  and  second line , then
+   3 s - 4 s with  x > y ; resp. 1 s - 2.5 s with  Hello brave new world, & more  and  second line , then 3 s - 4 s with  x > y *)
+Example C07_ssa_to_vtt_styled_example :
+  doc_repr ex_sv_doc /\ ssavtt_join_ok ex_sv_doc = true /\ repr_vdoc (conv_ssa_vtt_m (canon_doc ex_sv_doc)) (style_keys ex_sv_doc) [] /\
+  ptrunc 1000000 (ptrunc ssa_unit (ssa_to_plain ex_sv_doc)) = ex_sv_expected /\ length ex_sv_expected = 2%nat.
+Proof. split; [exact ex_sv_repr | split; [exact ex_sv_join | split; [exact ex_sv_conv_repr | split; [exact ex_sv_plain | reflexivity]]]]. Qed.
+Example C07_vtt_to_ssa_styled_example :
+  repr_vdoc ex_vs_doc ex_vs_so ex_vs_ro /\ doc_repr (conv_vtt_ssa_m (ndoc ex_vs_doc ex_vs_so ex_vs_ro)) /\
+  ptrunc ssa_unit (ptrunc 1000000 (vtt_to_plain ex_vs_doc)) = ex_vs_expected /\ length ex_vs_expected = 2%nat.
+Proof. split; [exact ex_vs_repr | split; [exact ex_vs_conv_repr | split; [exact ex_vs_plain | reflexivity]]]. Qed.
